@@ -76,8 +76,8 @@ fn codec_string(rng: &mut Rng, case: u64) -> String {
             (0..n).map(|_| char::from_u32(rng.below(0x10ffff) as u32).unwrap_or('\u{fffd}')).collect()
         }
         5 => {
-            // long strings, all lengths mod 3
-            let n = 3000 + rng.below(9000);
+            // long strings, all lengths mod 3 (one case in ten of this arm: each costs ~0.5 MB of event log)
+            let n = if rng.chance(1, 10) { 3000 + rng.below(6000) } else { 40 + rng.below(200) };
             (0..n).map(|i| if i % 97 == 0 { 'é' } else { (b'a' + (i % 26) as u8) as char }).collect()
         }
         6 => {
